@@ -2,6 +2,7 @@ package core
 
 import (
 	"bytes"
+	"encoding/json"
 	"fmt"
 	"runtime"
 	"sort"
@@ -1431,8 +1432,20 @@ func (s *Sim) doBatch(o *Op) {
 	for i := 1; i < len(sels); i++ {
 		a, l := sortedCopy(sels[0]), sortedCopy(sels[i])
 		if fmt.Sprint(a) != fmt.Sprint(l) {
-			// both passed checkSelection, so they can only differ in entities the model
-			// does not care about
+			// both passed checkSelection. A registered relation filter keeps its target HANDLE; once
+			// that entity is gone (Reset, LoadEntities) the handle may be issued again, and to
+			// different entities in the two worlds (they recycle in different orders): then the
+			// filter legitimately selects different entities and the call cannot be followed in
+			// lock step.
+			y0, d0 := s.Worlds()[0].Expect(comps[0], s.M)
+			yi, di := s.Worlds()[i].Expect(comps[i], s.M)
+			if fmt.Sprint(y0, d0) != fmt.Sprint(yi, di) {
+				s.Aborted = true
+				if s.St != nil {
+					s.St.Count("ended_stale_target_handle_differs_between_worlds", 1)
+				}
+				return
+			}
 			s.Report(finding(CatBatchDiff, "lock-step worlds select different entities: %v vs %v", a, l))
 			return
 		}
@@ -1797,11 +1810,19 @@ func (s *Sim) doReset(o *Op) {
 // set and all handles survive; components do not.
 func (s *Sim) doDumpLoad(o *Op) {
 	for _, b := range s.Worlds() {
+		var terr error
 		p := Call(func() {
 			dump := b.W.DumpEntities()
+			if dump, terr = transportDump(dump, o.V); terr != nil {
+				return
+			}
 			b.W.Reset()
 			b.W.LoadEntities(&dump)
 		})
+		if terr != nil {
+			s.Report(finding(CatHandles, "%s: the entity dump does not survive encoding/json: %v", b.Name, terr))
+			return
+		}
 		if p != nil {
 			s.unexpectedPanic(o, b, p, CatPanicReset)
 			return
@@ -2052,6 +2073,24 @@ func (s *Sim) doDumpSave(o *Op) {
 	s.label("dump saved")
 }
 
+// transportDump returns the dump as it arrives after the chosen transport: 0 the value itself, 1
+// through encoding/json (compact), 2 through encoding/json's indented form.
+func transportDump(d ecs.EntityDump, how int) (ecs.EntityDump, error) {
+	if how == 0 {
+		return d, nil
+	}
+	js, err := json.Marshal(d)
+	if how == 2 {
+		js, err = json.MarshalIndent(d, "", "\t")
+	}
+	if err != nil {
+		return d, err
+	}
+	out := ecs.EntityDump{}
+	err = json.Unmarshal(js, &out)
+	return out, err
+}
+
 // doDumpRestore resets every world and loads the dump taken earlier: the entity state (alive
 // set, generations, free list) is the one of dump time, whatever happened in between;
 // components are gone. Handles issued after the dump are forgotten (the history restarts).
@@ -2065,9 +2104,14 @@ func (s *Sim) doDumpRestore(o *Op) {
 			s.Report(finding(CatHarness, "dumpRestore: world set changed since dumpSave"))
 			return
 		}
+		d, terr := transportDump(sd.dumps[i], o.V)
+		if terr != nil {
+			s.Report(finding(CatHandles, "%s: the entity dump does not survive encoding/json: %v", b.Name, terr))
+			return
+		}
 		p := Call(func() {
 			b.W.Reset()
-			b.W.LoadEntities(&sd.dumps[i])
+			b.W.LoadEntities(&d)
 		})
 		if p != nil {
 			s.unexpectedPanic(o, b, p, CatPanicReset)
@@ -2094,6 +2138,10 @@ func (s *Sim) doDumpRestore(o *Op) {
 	s.M.Res = [NumRes]bool{}
 	s.everTgt = map[int]bool{}
 	s.DeadTargets = nil
+	// ordinals beyond the saved state are given to new entities from now on (and their handles may be
+	// issued again): registered relation filters keep their compiled target HANDLE, so their target
+	// ORDINAL can no longer be used by the generator (same rule as after Reset)
+	s.M.Epoch++
 	if s.F != nil {
 		// the fresh twin of a reset segment cannot follow a load of older state
 		s.F = nil
